@@ -5,10 +5,12 @@ import XmppModel.Model.IbbReaders
 import XmppModel.Model.IbbSend
 import XmppModel.Model.IbbClose
 import XmppModel.Model.IbbBody
+import XmppModel.Model.IbbCarrier
 import XmppModel.Model.IbbTable
 /-! Driver module for C15.
 
-    C15 recv <maxbuf> <ops>    ops `,`-joined:  d:<known>:<seq>:<payloadhex>  data packet
+    C15 recv <maxbuf> <ops>    ops `,`-joined:  d:<known>:<seq>:<payloadhex>[:M<before>.<after>]  data packet
+                                                  (optional 5th field: the other children of its carrier <message/>)
                                                 c   the stream is closed (by either side)
                                                 h   local Close has sent its <close/> and waits for the answer
                                                 r:<n>   Read with a buffer of n bytes
@@ -39,8 +41,30 @@ def parseBody (f : String) : Option (List Seg) :=
 def parseSeqField (seq : String) : Option Bytes :=
   if seq.startsWith "x" then hexDecode (seq.drop 1).toString else some seq.toUTF8.toList
 
+/-- the shape of the carrier message, 5th field of a `d:` token: `M<before>.<after>`, one digit per
+child that stands before / after the packet (codes: `Model/IbbCarrier.lean`) -/
+def parseShape (f : String) : Option (List Nat × List Nat) :=
+  match f.toList with
+  | 'M' :: r =>
+    match (String.ofList r).splitOn "." with
+    | [b, a] => do
+      let ds (t : String) : Option (List Nat) := mapM? (fun c => if c.isDigit then some (c.toNat - 48) else none) t.toList
+      let b ← ds b; let a ← ds a
+      pure (b, a)
+    | _ => none
+  | _ => none
+
 def applyOp (s : RState) (op : String) : Option (RState × String) :=
   match op.splitOn ":" with
+  | ["d", k, seq, pl, shape] => do
+    -- message carrier: the packet is one child among others of its <message/>
+    let k ← parseBool k; let b ← parseBody pl
+    let a ← parseSeqField seq
+    let (bf, af) ← parseShape shape
+    match recvMessage std s (carrierChildren bf af ⟨k, a, b⟩) with
+    | .handled s' r => pure (s', showReply r)
+    | .notIbb => pure (s, "none")
+    | .unmodelled => none
   | ["d", k, seq, pl] => do
     -- the seq field is the attribute text: plain when it is a canonical numeral, else x<hex>
     let k ← parseBool k; let b ← parseBody pl
